@@ -26,6 +26,13 @@ class Budget(Exception):
     pass
 
 
+ABS_ONLY = -1      # entails(..., timeout_ms=ABS_ONLY): consult only the linear abstraction
+
+
+def kw_abs_only(timeout_ms):
+    return timeout_ms == ABS_ONLY
+
+
 class Engine(object):
     def __init__(self, timeout_ms=20000, max_paths=4096, max_decisions=400):
         self.timeout_ms = timeout_ms
@@ -42,6 +49,111 @@ class Engine(object):
         self._solver = s
         self._nfacts = 0
         self._npc = 0
+        # second solver over the LINEAR ABSTRACTION of the same facts: every nonlinear product / quotient is
+        # replaced by a fresh constant (same subterm, same constant).  Unsat there implies unsat of the real
+        # query (a real model induces an abstract one), and it answers in milliseconds; used first everywhere.
+        a = z3.Solver()
+        a.set("timeout", 5000)
+        self._abs_solver = a
+        self._abs_nfacts = 0
+        self._abs_npc = 0
+        self._abs_cache = {}
+
+    def abstract(self, term):
+        cache = self._abs_cache
+        term = z3.simplify(term)
+
+        def nonlinear(t):
+            if not z3.is_app(t):
+                return False
+            k = t.decl().kind()
+            if k == z3.Z3_OP_MUL:
+                return sum(1 for c in t.children() if not (z3.is_rational_value(c) or z3.is_int_value(c))) >= 2
+            if k in (z3.Z3_OP_DIV, z3.Z3_OP_IDIV, z3.Z3_OP_MOD, z3.Z3_OP_REM):
+                c = t.children()[1]
+                return not (z3.is_rational_value(c) or z3.is_int_value(c))
+            if k == z3.Z3_OP_POWER:
+                return True
+            return False
+        memo = {}
+        R = z3.RealSort()
+        I = z3.IntSort()
+        ufs = self._abs_cache
+
+        def uf(name, sort, arity):
+            key = (name, sort.name(), arity)
+            if key not in ufs:
+                ufs[key] = z3.Function("nl_%s_%s%d" % (name, sort.name(), arity), *([sort] * arity + [sort]))
+            return ufs[key]
+
+        def go(t):
+            i = t.get_id()
+            if i in memo:
+                return memo[i]
+            if z3.is_quantifier(t) or not z3.is_app(t):
+                memo[i] = t
+                return t
+            ch = t.children()
+            if not ch:
+                memo[i] = t
+                return t
+            new = [go(c) for c in ch]
+            if nonlinear(t):
+                # uninterpreted product / quotient of the abstracted arguments: congruence is kept
+                k = t.decl().kind()
+                srt = t.sort()
+                if k == z3.Z3_OP_MUL:
+                    nums = [c for c in new if z3.is_rational_value(c) or z3.is_int_value(c)]
+                    rest = sorted([c for c in new if not (z3.is_rational_value(c) or z3.is_int_value(c))], key=lambda c: c.get_id())
+                    acc = rest[0]
+                    for c in rest[1:]:
+                        acc = uf("mul", srt, 2)(acc, c)
+                    for c in nums:
+                        acc = c * acc
+                    r = acc
+                else:
+                    name = {z3.Z3_OP_DIV: "div", z3.Z3_OP_IDIV: "idiv", z3.Z3_OP_MOD: "mod", z3.Z3_OP_REM: "rem", z3.Z3_OP_POWER: "pow"}[k]
+                    r = uf(name, srt, 2)(new[0], new[1])
+                memo[i] = r
+                return r
+            if all(a.get_id() == b.get_id() for a, b in zip(new, ch)):
+                memo[i] = t
+                return t
+            r = t.decl()(*new)
+            memo[i] = r
+            return r
+        return go(term)
+
+    def _abs_sync(self):
+        a = self._abs_solver
+        while self._abs_nfacts < len(CTX.facts):
+            a.add(self.abstract(CTX.facts[self._abs_nfacts]))
+            self._abs_nfacts += 1
+        while self._abs_npc < len(CTX.pc):
+            a.add(self.abstract(CTX.pc[self._abs_npc]))
+            self._abs_npc += 1
+
+    def abs_unsat(self, *extra, **kw):
+        """True if facts & pc & extra is unsatisfiable already in the linear abstraction"""
+        self._abs_sync()
+        a = self._abs_solver
+        tmo = kw.get("timeout_ms")
+        if tmo:
+            a.set("timeout", tmo)
+        a.push()
+        for e in extra:
+            a.add(self.abstract(e))
+        t0 = time.time()
+        try:
+            r = a.check()
+        except z3.Z3Exception:
+            r = z3.unknown
+        self.solver_calls += 1
+        self.solver_time += time.time() - t0
+        a.pop()
+        if tmo:
+            a.set("timeout", 5000)
+        return r == z3.unsat
 
     def _sync(self):
         s = self._solver
@@ -84,6 +196,10 @@ class Engine(object):
             return True
         if z3.is_false(z):
             return self.check(timeout_ms=timeout_ms) == "unsat"
+        if self.abs_unsat(z3.Not(z)):
+            return True
+        if kw_abs_only(timeout_ms):
+            return False
         return self.check(z3.Not(z), timeout_ms=timeout_ms) == "unsat"
 
     # ---------------------------------------------------------------- forking
@@ -122,7 +238,8 @@ class Engine(object):
         """Run thunk() once per feasible path.  thunk builds its symbolic inputs itself (deterministically)
         and returns (inputs, callable) or directly runs the code; here: thunk() -> value.
         Yields (Outcome, ctx-snapshot) while the context of that path is still live."""
-        self._work = [[]]
+        # an obligation may be split by a forced prefix of decisions (its siblings cover the other prefixes)
+        self._work = [list(getattr(self, "initial_prefix", []))]
         n = 0
         while self._work:
             prefix = self._work.pop()
@@ -170,6 +287,17 @@ class Engine(object):
         for f in sym.instantiate_atoms(idx_tuples):
             CTX.facts.append(f)
         t0 = time.time()
+        if self.abs_unsat(z3.Not(goal)):
+            self.last_model = None
+            return "unsat", None, time.time() - t0
+        # not immediate: bring the atoms up to date with the facts collected since they were created
+        nf = (len(CTX.facts), len(CTX.pc), len(CTX.atoms))
+        if getattr(self, "_refreshed", None) != nf:
+            sym.refresh_atoms(self)
+            self._refreshed = (len(CTX.facts), len(CTX.pc), len(CTX.atoms))
+        if self.abs_unsat(z3.Not(goal)):
+            self.last_model = None
+            return "unsat", None, time.time() - t0
         r = self.check(z3.Not(goal))
         dt = time.time() - t0
         verdict = {"unsat": "unsat", "sat": "sat"}.get(r, "unknown")
